@@ -26,6 +26,7 @@ func draw(t *rapid.T) Case {
 	o.AllowMissing = gen.OneIn(t, 4, "allow")
 	o.Ensure = gen.OneIn(t, 5, "ensure")
 	g := gen.NewOpGen(o.Neg)
+	g.Orig = doc.Clone()
 	g.NearMiss, g.TestMismatch = 0, 0
 	g.Kinds = []string{"add", "add", "remove", "replace", "move", "copy", "copy", "test", "test"}
 	ro := o.Ref()
